@@ -22,6 +22,7 @@ def dispatch (j : Json) : R Json := do
   | "density" => handleDensity j
   | "to_rfi" => handleToRfi j
   | "to_mef" => handleToMef j
+  | "meta" => handleMeta j
   | "ping" => pure (Json.mkObj [("pong", Json.bool true)])
   | _ => throw s!"unknown op {op}"
 
